@@ -152,6 +152,10 @@ impl TableParser {
         let mut held: Vec<Tok> = vec![];
         // None = nothing peeked; Some(None) = end of input peeked; Some(Some(..)) = a token peeked
         let mut peeked: Option<Option<(usize, Tok)>> = None;
+        // tables with conflicts resolved arbitrarily can reduce for ever without consuming
+        // anything; the compiled parser is stopped by the per-run watchdog, the interpreter by
+        // this budget (reported like any other failure to return: a panic of the run)
+        let mut reduces_since_shift = 0usize;
         loop {
             if peeked.is_none() {
                 peeked = Some(stream.pull());
@@ -163,13 +167,21 @@ impl TableParser {
             let top = *states.last().unwrap();
             match self.action[top][kind] {
                 Act::Shift(s) => {
+                    reduces_since_shift = 0;
                     states.push(s);
                     if let Some(Some((_, t))) = peeked.take() {
                         held.push(t);
                     }
                 }
                 Act::Reduce(r) => {
+                    reduces_since_shift += 1;
+                    if reduces_since_shift > 100_000 {
+                        panic!("table interpreter: 100000 reductions without consuming a token (the tables loop)");
+                    }
                     let len = self.rule_len[r];
+                    if len >= states.len() {
+                        panic!("table interpreter: reduction pops more states than the stack holds");
+                    }
                     states.truncate(states.len() - len);
                     let top = *states.last().unwrap();
                     match self.goto[top][self.rule_lhs[r]] {
